@@ -21,11 +21,20 @@ func pick(t *rapid.T, label string, w ...int) int {
 	return len(w) - 1
 }
 
+// pBase is the process limit sizes are drawn around (a practically unlimited one gives ordinary sizes)
+func pBase(c *Case) int64 {
+	if c.P > 1000000 {
+		return 300
+	}
+	return c.P
+}
+
 func genSize(t *rapid.T, c *Case, label string, allowOversize bool) (series, total int64) {
 	lim := c.L
 	if lim == 0 {
 		lim = c.P
 	}
+	P := pBase(c)
 	opts := []int64{0, 1, 5, 10, lim / 4, lim / 3, lim / 2, lim*2/3 + 1, lim - 1, lim - 2}
 	series = rapid.SampledFrom(opts).Draw(t, label+"-series")
 	switch pick(t, label+"-totalKind", 4, 2, 2, 2) {
@@ -34,17 +43,17 @@ func genSize(t *rapid.T, c *Case, label string, allowOversize bool) (series, tot
 	case 1:
 		total = series + int64(rapid.IntRange(1, 9).Draw(t, label+"-extra"))
 	case 2:
-		total = series + c.P/3
+		total = series + P/3
 	default:
-		total = series + c.P/2
+		total = series + P/2
 	}
-	if total >= c.P {
-		total = c.P - 1
+	if total >= P {
+		total = P - 1
 	}
 	if series > total {
 		series = total
 	}
-	if allowOversize && rapid.IntRange(0, 9).Draw(t, label+"-oversize") == 0 {
+	if allowOversize && rapid.IntRange(0, 9).Draw(t, label+"-oversize") == 0 && (c.P < 1000000 || c.L != 0) {
 		if c.L != 0 && rapid.Bool().Draw(t, label+"-overHead") {
 			series, total = c.L+20, c.L+20
 			if total >= c.P {
@@ -55,8 +64,10 @@ func genSize(t *rapid.T, c *Case, label string, allowOversize bool) (series, tot
 					series = total
 				}
 			}
-		} else {
+		} else if c.P < 1000000 {
 			total = c.P + 10
+		} else {
+			series, total = c.L+20, c.L+20
 		}
 	}
 	return
@@ -137,6 +148,9 @@ func GenCase(t *rapid.T, withFaults bool) *Case {
 		c.L = 100
 	}
 	c.P = rapid.SampledFrom([]int64{150, 300}).Draw(t, "P")
+	if c.L != 0 && rapid.IntRange(0, 7).Draw(t, "unlimitedP") == 3 {
+		c.P = 1000000000000000000 // shards limited by head series only: the process limit is set "to infinity"
+	}
 	c.Idle = rapid.SampledFrom([]string{"off", "now", "now", "long"}).Draw(t, "idle")
 	c.FileMode = rapid.IntRange(0, 4).Draw(t, "fileMode") == 0
 	c.DisableAlleviate = rapid.IntRange(0, 4).Draw(t, "disableAlleviate") == 0
